@@ -134,6 +134,16 @@ pub fn run(out: &mut Out, tier: &str, rng: &mut Rng) {
         json!({"outputPath": "x", "validationLibrary": "yup"}),
         json!({"outputPath": "pfad/ö", "validationLibrary": "none", "typeMappings": {}}),
         json!({"outputPath": "g", "validationLibrary": "zod", "typeMappings": {"Versioned<Uuid, Rev>": "string", "HashMap<String, u8>": "number", " padded ": "string"}}),
+        // path values that some layer might want to "normalise": they are stored and read back as written
+        json!({"outputPath": "gen\\out", "validationLibrary": "none"}),
+        json!({"outputPath": "~/generated", "validationLibrary": "zod"}),
+        json!({"outputPath": "~", "validationLibrary": "none"}),
+        json!({"outputPath": "$HOME/out/${USER}", "validationLibrary": "none"}),
+        json!({"outputPath": "%APPDATA%\\bindings\\", "validationLibrary": "zod"}),
+        json!({"outputPath": "./a/../b/./c//d/", "validationLibrary": "none"}),
+        json!({"outputPath": " spaced out ", "validationLibrary": "none"}),
+        json!({"outputPath": "file:///tmp/out", "validationLibrary": "zod"}),
+        json!({"outputPath": "C:\\Users\\me\\ui", "validationLibrary": "none", "includePatterns": ["src\\**", "~/x"], "excludePatterns": ["~"]}),
     ];
     let n = if tier == "thorough" { 6000 } else { 500 };
     for i in 0..n {
